@@ -131,6 +131,12 @@ func (c *Ctx) RunC06(tier string) {
 				c.check06(fmt.Sprintf("i for %d\nmov 0, i\nrof\n", n), cfg)
 				c.check06(fmt.Sprintf("mov 0, 1\ni for %d-1\nmov 0, i\nrof\n", n), cfg)
 				c.check06(fmt.Sprintf("i for MAXLENGTH+%d-%d\nmov 0, i\nrof\n", n, L), cfg)
+				// entry point given before code that only a FOR produces
+				for _, k := range []int{-1, 0, int(n) - 1, int(n), int(n) + 1} {
+					c.check06(fmt.Sprintf("org %d\ni for %d\nmov 0, i\nrof\n", k, n), cfg)
+					c.check06(fmt.Sprintf("i for %d\nmov 0, i\nrof\nend %d\n", n, k), cfg)
+					c.check06(fmt.Sprintf("org last\ni for %d\nmov 0, i\nrof\nlast end %d\n", n, k), cfg)
+				}
 			}
 		}
 	}
@@ -155,8 +161,8 @@ func (c *Ctx) RunC06(tier string) {
 					}
 					c.check06(line+"\n", cfg88)
 					c.check06("start mov 0, 1\n"+line+"\njmp start\n", cfg88)
+					c.check06(strings.ToUpper(line)+"\n", cfg88)
 					if thorough {
-						c.check06(strings.ToUpper(line)+"\n", cfg88)
 						c.check06("x equ 2\n"+op+md+" "+am+"x, "+bm+"x\nend\n", cfg88)
 					}
 				}
